@@ -128,6 +128,41 @@ def c04(rnd, budget):
                     finally:
                         if managed:
                             p.__exit__(None, None, None)
+    # a task may raise anything, also a BaseException that is not an Exception: same type and arguments in the caller, the call terminates,
+    # the object stays usable (seeded change C04-threading-skips-traceback-wrapper: such a task killed the pool's worker thread, no callback
+    # ever fired).  Run in a child process with a watchdog: a violation here is a hang.
+    import subprocess
+    child = (
+        "import sys, json\n"
+        "from joblib import Parallel, delayed\n"
+        "class Custom(BaseException):\n"
+        "    pass\n"
+        "def boom(i, kind):\n"
+        "    if i == 2:\n"
+        "        raise {'exit': SystemExit, 'kbd': KeyboardInterrupt, 'custom': Custom}[kind]('stop', i)\n"
+        "    return i\n"
+        "out = []\n"
+        "for n_jobs in (1, 2):\n"
+        "    for kind, cls in (('exit', SystemExit), ('kbd', KeyboardInterrupt), ('custom', Custom)):\n"
+        "        p = Parallel(n_jobs=n_jobs, backend='threading')\n"
+        "        try:\n"
+        "            p(delayed(boom)(i, kind) for i in range(5))\n"
+        "            out.append([n_jobs, kind, 'returned'])\n"
+        "        except BaseException as e:\n"
+        "            out.append([n_jobs, kind, 'ok' if type(e) is cls and e.args == ('stop', 2) else repr(e)])\n"
+        "        again = p(delayed(abs)(-i) for i in range(3))\n"
+        "        if again != [0, 1, 2]:\n"
+        "            out.append([n_jobs, kind, 'reuse gave %r' % (again,)])\n"
+        "print(json.dumps(out))\n")
+    cases += 6
+    try:
+        pr = subprocess.run([sys.executable, "-c", child], capture_output=True, text=True, timeout=30)
+        res = json.loads(pr.stdout.strip().splitlines()[-1]) if pr.returncode == 0 and pr.stdout.strip() else [["?", "?", "child failed: " + pr.stderr[-300:]]]
+    except subprocess.TimeoutExpired:
+        res = [["?", "?", "no termination within 30 s"]]
+    bad = [r for r in res if r[2] != "ok"]
+    if bad:
+        return dict(violation=True, cases=cases, what="task raising a BaseException subclass (threading backend): %r" % (bad,), witness=bad)
     # failing input iterable is raised in the caller
     def bad_input():
         for i in range(6):
@@ -381,6 +416,23 @@ def c16(rnd, budget):
     out = list(Parallel(n_jobs=3, backend="threading", return_as="generator_unordered", batch_size=1)(delayed(task)(i, 0.03 if i == 0 else 0.0) for i in range(8)))
     if sorted(out) != [("r", i) for i in range(8)] or out[0] == ("r", 0):
         return dict(violation=True, cases=cases, what="unordered generator returned %r" % (out,), witness="slow first task")
+    # prompt also late in a call: after a long wait for one slow task, results that complete afterwards are still delivered when they complete
+    # (seeded change C16-retrieval-poll-backoff-not-reset: a polling delay that grows while waiting and never shrinks again)
+    def stamped(i, d):
+        time.sleep(d)
+        return i, time.time()
+    for ras in ("generator", "generator_unordered"):
+        cases += 1
+        durations = [2.2, 0.0] + [0.25] * 14
+        worst, ready = 0.0, 0.0
+        for i, done_at in Parallel(n_jobs=2, backend="threading", return_as=ras, batch_size=1, pre_dispatch=2)(delayed(stamped)(i, d) for i, d in enumerate(durations)):
+            # in submission order a result is ready once it and all earlier ones are complete; in completion order when it is complete
+            ready = max(ready, done_at) if ras == "generator" else done_at
+            if i >= 3:
+                worst = max(worst, time.time() - ready)
+        if worst > 0.5:
+            return dict(violation=True, cases=cases, what="%s: after a 2.2 s wait for the first task, a result completed later was delivered %.2f s after it was ready" % (ras, worst),
+                        witness=dict(return_as=ras, durations=durations))
     # abandon: close early, object reusable; overlapping call rejected
     for managed in (False, True):
         cases += 1
